@@ -554,6 +554,16 @@ def main():
                 if i == "not-run-after-hangs":
                     dist["not run (harness stopped after repeated hangs)"] += 1
                     continue
+                mw = re.search(r" waited=\d+$", i)
+                if mw:
+                    # an async sender had to wait for queue capacity: when the task sees its entry
+                    # depends on when the waiting sender is polled again; the model makes the entry
+                    # visible at once.  Only the scripts written for this situation (cl_block, whose
+                    # order of events is forced) are compared; elsewhere the case is set aside.
+                    i = i[:mw.start()]
+                    if s.get("gen") != "cl_block":
+                        dist["set aside: a sender waited for queue capacity"] += 1
+                        continue
                 for k in cfg["classify"](c, i):
                     dist[k] += 1
                 if cfg["nontrivial"](c, i):
@@ -613,7 +623,9 @@ def main():
 
         def still_fails(case):
             a, _, b = run_cases([case], fail_which)
-            return a[0] not in b[0].split(" || ")
+            if re.search(r" waited=\d+$", a[0]) and suite != "cl_block":
+                return False
+            return re.sub(r" waited=\d+$", "", a[0]) not in b[0].split(" || ")
         small = shrink(c, still_fails)
         a, mo, b = run_cases([small], fail_which)
         replay_path = os.path.join(VERIF, "replays", f"{pid}-{int(time.time())}.json")
